@@ -824,6 +824,254 @@ Section Space.
     - rewrite Forall_forall in Hs. apply Hs. now apply nth_error_In in E.
   Qed.
 
+  (* ---------- the original flushPendingWrites: pending entries are written like any other ---------- *)
+  (* an entry in the pending channel must carry the DB value, or be shadowed by a newer cache
+     entry for its key; held readers ([c_stall]) are constrained only when they land *)
+  Definition pendU_ok (dl : list K) (R : nat) (S : K -> V) (l p : list CE) : Prop :=
+    forall e, In e p ->
+      rnd e <= R /\ (In (key e) dl -> rnd e < R) /\
+      (~ In (key e) dl -> val e = S (key e) \/ exists e', Cread l (key e) = Some e' /\ rnd e < rnd e').
+
+  Record CInvU (dl : list K) (R : nat) (S : K -> V) (c : cache K V) : Prop := mkCInvU {
+    cu_lru : lru_ok dl R S (c_lru K V c);
+    cu_pend : pendU_ok dl R S (c_lru K V c) (c_pend K V c);
+    cu_stall : Forall (item_ok R S) (c_stall K V c);
+    cu_nf : nf_ok dl S (c_lru K V c) (c_nf K V c ++ map fst (c_pnf K V c)) }.
+
+  Lemma cinvu_empty : forall R S, CInvU [] R S (cache_empty K V).
+  Proof.
+    intros R S. constructor; simpl.
+    - intros x Hx. inversion Hx.
+    - intros x Hx. inversion Hx.
+    - constructor.
+    - intros x Hx. inversion Hx.
+  Qed.
+
+  Lemma cinvu_write : forall k dl R S c,
+    ~ In k dl -> CInvU (k :: dl) R S c ->
+    CInvU dl R S (cache_write K V keqb true c (mkCE K V k (S k) R)).
+  Proof.
+    intros k dl R S c Hk [Hl Hp Hs Hn]. unfold cache_write.
+    set (e := mkCE K V k (S k) R). set (l := c_lru K V c) in *.
+    assert (Hw : winner l e = e).
+    { destruct (winner_cases l e) as [[H _]|[old [H1 [H2 H3]]]]; [exact H|].
+      apply cread_some in H1. destruct H1 as [H1 H1k]. simpl in H1k.
+      destruct (Hl old H1) as [_ [Hd _]]. rewrite H1k in Hd. simpl in H3.
+      specialize (Hd (or_introl eq_refl)). lia. }
+    constructor; simpl; try assumption.
+    - intros e0 H. destruct (lwrite_in l e e0 H) as [Hx|[Hx Hne]].
+      + rewrite Hx, Hw. simpl. split; [lia|split; [intro; contradiction|intro; reflexivity]].
+      + destruct (Hl e0 Hx) as [H1 [H2 H3]]. split; [exact H1|split].
+        * intro Hd. apply H2. now right.
+        * intro Hd. apply H3. intros [Hy|Hy]; [simpl in Hne; congruence|contradiction].
+    - intros e0 H. destruct (Hp e0 H) as [H1 [H2 H3]]. split; [exact H1|split].
+      + intro Hd. apply H2. now right.
+      + intro Hd. destruct (keqb_dec (key e0) k) as [Hy|Hy].
+        * right. exists e. rewrite lwrite_read, Hy. simpl. rewrite kref, Hw. split; [reflexivity|].
+          simpl. apply H2. now left.
+        * destruct H3 as [Hq|[e' [Hq1 Hq2]]]; [intros [Hz|Hz]; [congruence|contradiction] | now left |].
+          right. exists e'. rewrite lwrite_read. simpl. rewrite (kneq _ _ Hy). now split.
+    - intros k0 Hk0 Hd. destruct (keqb_dec k0 k) as [Hy|Hy].
+      + right. rewrite lwrite_read, Hy. simpl. rewrite kref. discriminate.
+      + destruct (Hn k0 Hk0) as [Hq|Hq]; [intros [Hz|Hz]; [congruence|contradiction] | now left |].
+        right. rewrite lwrite_read. simpl. now rewrite (kneq _ _ Hy).
+  Qed.
+
+  Lemma cinvu_enter : forall dl R R' S S' c,
+    R < R' -> (forall k, ~ In k dl -> S' k = S k) ->
+    CInvU [] R S c -> CInvU dl R' S' c.
+  Proof.
+    intros dl R R' S S' c HR HS [Hl Hp Hs Hn]. constructor.
+    - intros e H. destruct (Hl e H) as [H1 [_ H3]]. split; [lia|split; [intros; lia|]].
+      intro Hd. rewrite (HS _ Hd). apply H3. tauto.
+    - intros e H. destruct (Hp e H) as [H1 [_ H3]]. split; [lia|split; [intros; lia|]].
+      intro Hd. rewrite (HS _ Hd). apply H3. tauto.
+    - eapply Forall_impl; [|exact Hs]. intros [e|q]; simpl; [now apply ent_ok_enter|now apply nfe_ok_enter].
+    - intros k Hk Hd. rewrite (HS _ Hd). apply (Hn k Hk). tauto.
+  Qed.
+
+  Lemma flushu_fold : forall R S p l ks,
+    lru_ok [] R S l -> pendU_ok [] R S l p -> nf_ok [] S l ks ->
+    lru_ok [] R S (fold_left Lwrite p l) /\ nf_ok [] S (fold_left Lwrite p l) ks.
+  Proof.
+    intros R S. induction p as [|e p IH]; intros l ks Hl Hp Hn; simpl; [now split|].
+    apply IH.
+    - intros x Hx. destruct (lwrite_in l e x Hx) as [Hy|[Hy _]]; [|now apply Hl].
+      subst x. destruct (winner_cases l e) as [[H Hlt]|[old [H1 [H2 H3]]]].
+      + rewrite H. destruct (Hp e (or_introl eq_refl)) as [Ha [_ Hb]].
+        split; [exact Ha|split; [simpl; tauto|]].
+        intros _. destruct (Hb (fun x => x)) as [Hc|[e' [Hc1 Hc2]]]; [exact Hc|].
+        specialize (Hlt e' Hc1). lia.
+      + rewrite H2. apply Hl. now apply cread_some in H1.
+    - intros x Hx. destruct (Hp x (or_intror Hx)) as [Ha [_ Hb]].
+      split; [exact Ha|split; [simpl; tauto|]].
+      intros _. destruct (Hb (fun z => z)) as [Hc|[e' [Hc1 Hc2]]]; [now left|]. right.
+      rewrite lwrite_read. destruct (keqb (key x) (key e)) eqn:E.
+      + apply keqb_spec in E. rewrite E in Hc1. exists (winner l e). split; [reflexivity|].
+        destruct (winner_cases l e) as [[H Hlt]|[old [H1 [H2 H3]]]].
+        * rewrite H. specialize (Hlt e' Hc1). lia.
+        * rewrite H2. rewrite Hc1 in H1. inversion H1; subst. exact Hc2.
+      + exists e'. now split.
+    - intros k Hk Hd. destruct (Hn k Hk Hd) as [Hq|Hq]; [now left|]. right.
+      rewrite lwrite_read. destruct (keqb k (key e)); [discriminate|exact Hq].
+  Qed.
+
+  Lemma flush_one_old : forall R l e, flush_one K V keqb false R l e = Lwrite l e.
+  Proof. reflexivity. Qed.
+
+  Lemma fold_flush_old : forall R p l, fold_left (flush_one K V keqb false R) p l = fold_left Lwrite p l.
+  Proof. intros R. induction p as [|e p IH]; intro l; simpl; [reflexivity|apply IH]. Qed.
+
+  Lemma filter_all : forall (A : Type) (l : list A), filter (fun _ => true) l = l.
+  Proof. induction l as [|x l IH]; simpl; [reflexivity|now rewrite IH]. Qed.
+
+  Lemma cinvu_flush : forall R S c, CInvU [] R S c -> CInvU [] R S (cache_flush K V keqb true false R c).
+  Proof.
+    intros R S c [Hl Hp Hs Hn]. unfold cache_flush. simpl. rewrite fold_flush_old, filter_all.
+    destruct (flushu_fold R S _ _ _ Hl Hp Hn) as [H1 H2].
+    constructor; simpl; [exact H1|intros x Hx; inversion Hx|exact Hs|].
+    rewrite app_nil_r. intros k Hk Hd. apply H2; [|exact Hd].
+    rewrite in_app_iff in *. tauto.
+  Qed.
+
+  Lemma cinvu_flush_prune : forall R S c n,
+    CInvU [] R S c -> CInvU [] R S (cache_prune K V true (cache_flush K V keqb true false R c) n).
+  Proof.
+    intros R S c n H. apply cinvu_flush in H. destruct H as [Hl Hp Hs Hn]. unfold cache_prune.
+    simpl in *. constructor; simpl; try assumption.
+    - intros e He. apply Hl. rewrite <- (firstn_skipn n). apply in_or_app. now left.
+    - intros x Hx. inversion Hx.
+    - intros x Hx. inversion Hx.
+  Qed.
+
+  (* what may enter the pending channels of the original code *)
+  Definition entU_ok (R : nat) (S : K -> V) (l : list CE) (e : CE) : Prop :=
+    rnd e <= R /\ (val e = S (key e) \/ exists e', Cread l (key e) = Some e' /\ rnd e < rnd e').
+  Definition nfeU_ok (S : K -> V) (l : list CE) (p : K * nat) : Prop :=
+    S (fst p) = vempty \/ Cread l (fst p) <> None.
+  Definition itemU_ok (R : nat) (S : K -> V) (l : list CE) (x : CE + K * nat) : Prop :=
+    match x with inl e => entU_ok R S l e | inr p => nfeU_ok S l p end.
+
+  Lemma cinvu_wpend : forall R S c en pcap e,
+    CInvU [] R S c -> entU_ok R S (c_lru K V c) e -> CInvU [] R S (cache_wpend K V en pcap c e).
+  Proof.
+    intros R S c en pcap e [Hl Hp Hs Hn] [He1 He2]. unfold cache_wpend.
+    destruct (en && (length (c_pend K V c) <? pcap)); [|now constructor].
+    constructor; simpl; try assumption.
+    intros x Hx. apply in_app_iff in Hx. destruct Hx as [Hx|[Hx|[]]]; [now apply Hp|]. subst x.
+    split; [exact He1|split; [simpl; tauto|intros _; exact He2]].
+  Qed.
+
+  Lemma cinvu_wpnf : forall R S c en pcap p,
+    CInvU [] R S c -> nfeU_ok S (c_lru K V c) p -> CInvU [] R S (cache_wpnf K V en pcap c p).
+  Proof.
+    intros R S c en pcap p [Hl Hp Hs Hn] He. unfold cache_wpnf.
+    destruct (en && (length (c_pnf K V c) <? pcap)); [|now constructor].
+    constructor; simpl; try assumption.
+    intros x Hx Hd. rewrite map_app, app_assoc in Hx. apply in_app_iff in Hx.
+    destruct Hx as [Hx|[Hx|[]]]; [now apply Hn|]. subst x. exact He.
+  Qed.
+
+  (* an immediate cache write of a lookup: the item is both fresh and correct *)
+  Lemma cinvu_put : forall R S c stall en pcap x,
+    CInvU [] R S c -> item_ok R S x -> (stall = false -> itemU_ok R S (c_lru K V c) x) ->
+    CInvU [] R S (cache_put K V stall en pcap c x).
+  Proof.
+    intros R S c stall en pcap x H Hx Hu. unfold cache_put. destruct stall.
+    - destruct en; [|exact H]. destruct H as [Hl Hp Hs Hn]. constructor; simpl; try assumption.
+      apply Forall_app. split; [exact Hs|now constructor].
+    - specialize (Hu eq_refl). destruct x as [e|p]; [now apply cinvu_wpend|now apply cinvu_wpnf].
+  Qed.
+
+  (* a held reader's write lands: admissible for the original flush only if it is still from the
+     current DB round, or it is shadowed by a newer cache entry, or the row has not changed *)
+  Definition land_safe (R : nat) (S : K -> V) (c : cache K V) (n : nat) : Prop :=
+    match nth_error (c_stall K V c) n with
+    | Some x => itemU_ok R S (c_lru K V c) x
+    | None => True
+    end.
+
+  Lemma cinvu_land : forall R S c en pcap n,
+    CInvU [] R S c -> land_safe R S c n -> CInvU [] R S (cache_land K V en pcap c n).
+  Proof.
+    intros R S c en pcap n H Hsafe. unfold cache_land, land_safe in *.
+    destruct (nth_error (c_stall K V c) n) as [x|] eqn:E; [|exact H].
+    destruct H as [Hl Hp Hs Hn]. apply cinvu_put.
+    - constructor; simpl; try assumption. rewrite Forall_forall in *. intros y Hy. apply Hs.
+      now apply remove_nth_in in Hy.
+    - rewrite Forall_forall in Hs. apply Hs. now apply nth_error_In in E.
+    - intros _. exact Hsafe.
+  Qed.
+
+  Lemma land_ok_safe : forall R S c n,
+    CInvU [] R S c -> cache_land_ok K V keqb R c n = true -> land_safe R S c n.
+  Proof.
+    intros R S c n [Hl Hp Hs Hn] H. unfold cache_land_ok, land_safe in *.
+    destruct (nth_error (c_stall K V c) n) as [x|] eqn:E; [|exact I].
+    rewrite Forall_forall in Hs. assert (Hx := Hs x (nth_error_In _ _ E)).
+    destruct x as [e|q]; simpl in *.
+    - destruct Hx as [H1 H2]. split; [exact H1|]. apply orb_true_iff in H. destruct H as [H|H].
+      + apply Nat.eqb_eq in H. left. now apply H2.
+      + destruct (Cread (c_lru K V c) (key e)) as [e'|] eqn:Er; [|discriminate].
+        right. exists e'. split; [reflexivity|now apply Nat.ltb_lt].
+    - destruct Hx as [H1 H2]. apply orb_true_iff in H. destruct H as [H|H].
+      + apply Nat.eqb_eq in H. left. now apply H2.
+      + right. destruct (Cread (c_lru K V c) (fst q)); [discriminate|discriminate].
+  Qed.
+
+  (* the invariant of the cache for either flush *)
+  Definition CInvG (fixed : bool) (dl : list K) (R : nat) (S : K -> V) (c : cache K V) : Prop :=
+    if fixed then CInvD dl R S c else CInvU dl R S c.
+
+  Definition item_fresh (R : nat) (S : K -> V) (x : CE + K * nat) : Prop :=
+    match x with
+    | inl e => rnd e <= R /\ val e = S (key e)
+    | inr p => snd p <= R /\ S (fst p) = vempty
+    end.
+
+  Lemma cinvg_empty : forall fx R S, CInvG fx [] R S (cache_empty K V).
+  Proof. intros [|] R S; [apply cinv_empty|apply cinvu_empty]. Qed.
+
+  Lemma cinvg_lru : forall fx dl R S c, CInvG fx dl R S c -> lru_ok dl R S (c_lru K V c).
+  Proof. intros [|] dl R S c H; [apply (ci_lru _ _ _ _ H)|apply (cu_lru _ _ _ _ H)]. Qed.
+
+  Lemma cinvg_nf : forall fx R S c k, CInvG fx [] R S c -> In k (c_nf K V c) ->
+    S k = vempty \/ Cread (c_lru K V c) k <> None.
+  Proof.
+    intros [|] R S c k H Hk.
+    - apply (ci_nf _ _ _ _ H k Hk). tauto.
+    - apply (cu_nf _ _ _ _ H k); [apply in_or_app; now left|tauto].
+  Qed.
+
+  Lemma cinvg_wpend : forall fx R S c en pcap e,
+    CInvG fx [] R S c -> rnd e <= R -> val e = S (key e) -> CInvG fx [] R S (cache_wpend K V en pcap c e).
+  Proof.
+    intros [|] R S c en pcap e H H1 H2.
+    - apply cinv_wpend; [exact H|]. split; [exact H1|intro; exact H2].
+    - apply cinvu_wpend; [exact H|]. split; [exact H1|now left].
+  Qed.
+
+  Lemma cinvg_put : forall fx R S c stall en pcap x,
+    CInvG fx [] R S c -> item_fresh R S x -> CInvG fx [] R S (cache_put K V stall en pcap c x).
+  Proof.
+    intros [|] R S c stall en pcap x H Hx.
+    - apply cinv_put; [exact H|]. destruct x as [e|q]; simpl in *; destruct Hx as [H1 H2]; split; auto.
+    - apply cinvu_put; [exact H| |].
+      + destruct x as [e|q]; simpl in *; destruct Hx as [H1 H2]; split; auto.
+      + intros _. destruct x as [e|q]; simpl in *; destruct Hx as [H1 H2]; [split; [exact H1|now left]|now left].
+  Qed.
+
+  Lemma cinvg_flush : forall fx R S c, CInvG fx [] R S c -> CInvG fx [] R S (cache_flush K V keqb true fx R c).
+  Proof. intros [|] R S c H; [now apply cinv_flush|now apply cinvu_flush]. Qed.
+
+  Lemma cinvg_flush_prune : forall fx R S c n,
+    CInvG fx [] R S c -> CInvG fx [] R S (cache_prune K V true (cache_flush K V keqb true fx R c) n).
+  Proof. intros [|] R S c n H; [now apply cinv_flush_prune|now apply cinvu_flush_prune]. Qed.
+
+  Lemma cinvg_land : forall fx R S c en pcap n,
+    CInvG fx [] R S c -> (fx = false -> land_safe R S c n) -> CInvG fx [] R S (cache_land K V en pcap c n).
+  Proof. intros [|] R S c en pcap n H Hs; [now apply cinv_land|apply cinvu_land; auto]. Qed.
+
   (* a disabled cache stays empty *)
   Definition cache_dis (en : bool) (c : cache K V) : Prop := en = false -> c = cache_empty K V.
 
@@ -850,13 +1098,52 @@ Section Space.
     rewrite (Hv k v n f (or_introl eq_refl) Es). apply cinvd_write; [|exact Hc].
     intro Hx. apply H1. now apply dirty_keys_in.
   Qed.
+  Lemma post_cache_fold_u : forall (c : list (cent K V D)) R S ca,
+    NoDup (map fst c) ->
+    (forall k v n f, In (k, (v, n, f)) c -> skip f v = false -> v = S k) ->
+    CInvU (dirty_keys c) R S ca ->
+    CInvU [] R S (fold_left (Postc true R) c ca).
+  Proof.
+    induction c as [|[k [[v n] f]] c IH]; intros R S ca Hnd Hv Hc; simpl; [exact Hc|].
+    inversion Hnd; subst. apply IH; [exact H2|intros; eapply Hv; [right; eassumption|assumption]|].
+    unfold dirty_keys in Hc. simpl in Hc. destruct (skip f v) eqn:Es; simpl in Hc; [exact Hc|].
+    rewrite (Hv k v n f (or_introl eq_refl) Es). apply cinvu_write; [|exact Hc].
+    intro Hx. apply H1. now apply dirty_keys_in.
+  Qed.
+
+  Lemma cinvg_post : forall fx (c : list (cent K V D)) R R' S S' ca,
+    NoDup (map fst c) -> R < R' ->
+    (forall k v n f, In (k, (v, n, f)) c -> skip f v = false -> v = S' k) ->
+    (forall k, ~ In k (dirty_keys c) -> S' k = S k) ->
+    CInvG fx [] R S ca -> CInvG fx [] R' S' (fold_left (Postc true R') c ca).
+  Proof.
+    intros [|] c R R' S S' ca Hnd HR Hv HS H.
+    - apply post_cache_fold; [exact Hnd|exact Hv|]. now apply (cinvd_enter _ R R' S).
+    - apply post_cache_fold_u; [exact Hnd|exact Hv|]. now apply (cinvu_enter _ R R' S).
+  Qed.
+
+  Lemma cinvu_ext : forall dl R S S' c, (forall k, S k = S' k) -> CInvU dl R S c -> CInvU dl R S' c.
+  Proof.
+    intros dl R S S' c HS [Hl Hp Hs Hn].
+    constructor.
+    - intros e H. destruct (Hl e H) as [H1 [H2 H3]]. split; [exact H1|split; [exact H2|]].
+      intro Hd. rewrite <- HS. now apply H3.
+    - intros e H. destruct (Hp e H) as [H1 [H2 H3]]. split; [exact H1|split; [exact H2|]].
+      intro Hd. rewrite <- HS. now apply H3.
+    - eapply Forall_impl; [|exact Hs]. intros [e|q]; simpl.
+      + intros [H1 H2]. split; [exact H1|]. intro Hx. rewrite <- HS. now apply H2.
+      + intros [H1 H2]. split; [exact H1|]. intro Hx. rewrite <- HS. now apply H2.
+    - intros k Hk Hd. rewrite <- HS. now apply Hn.
+  Qed.
+
   (* ------------------------------------------------------------------ the space invariant *)
   Variable f0 : K -> V.                      (* genesis values *)
   Notation Sf := (ks_state keqb interp f0).
 
-  Record SpInv (en : bool) (hist : rounds) (R dbr : nat) (mem : rounds) (s : sp K V) : Prop := mkSpInv {
+  (* fx: which flush of the base caches the code uses (true = the proposed flushPendingWritesSince) *)
+  Record SpInv (fx en : bool) (hist : rounds) (R dbr : nat) (mem : rounds) (s : sp K V) : Prop := mkSpInv {
     si_mods : mods_ok (s_mods K V s) mem;
-    si_cache : CInv R (Sf hist R) (s_cache K V s);
+    si_cache : CInvG fx [] R (Sf hist R) (s_cache K V s);
     si_dis : cache_dis en (s_cache K V s);
     si_db : forall k, Dbget (s_db K V s) k = Sf hist dbr k }.
 
@@ -902,26 +1189,26 @@ Section Space.
   Lemma cache_put_dis : forall stall pcap c x, cache_put K V stall false pcap c x = c.
   Proof. intros. unfold cache_put, cache_wpend, cache_wpnf. destruct stall; [reflexivity|now destruct x]. Qed.
 
-  Lemma sp_fall_ok : forall stall en pcap hist R dbr mem s k res s',
-    SpInv en hist R dbr mem s ->
+  Lemma sp_fall_ok : forall fx stall en pcap hist R dbr mem s k res s',
+    SpInv fx en hist R dbr mem s ->
     Fall stall en pcap R dbr s k = (res, s') ->
-    SpInv en hist R dbr mem s' /\
+    SpInv fx en hist R dbr mem s' /\
     (forall v, res = LOk v -> v = Sf hist R k) /\
     (dbr = R -> exists v, res = LOk v) /\
     (R < dbr -> res = LRetry \/ exists v, res = LOk v).
   Proof.
-    intros stall en pcap hist R dbr mem s k res s' [Hm Hc Hd Hdb] H. unfold sp_fall in H.
+    intros fx stall en pcap hist R dbr mem s k res s' [Hm Hc Hd Hdb] H. unfold sp_fall in H.
     assert (Hdis : forall c', (en = false -> c' = s_cache K V s) -> cache_dis en c').
     { intros c' Hx He. rewrite (Hx He). now apply Hd. }
     destruct (Cread (c_lru K V (s_cache K V s)) k) as [e|] eqn:Er.
     - (* cache hit *)
       inversion H; subst res s'. clear H. apply cread_some in Er. destruct Er as [Hin Hk].
-      destruct (ci_lru _ _ _ _ Hc e Hin) as [H1 [_ H3]].
+      destruct (cinvg_lru _ _ _ _ _ Hc e Hin) as [H1 [_ H3]].
       assert (Hv : val e = Sf hist R (key e)) by (apply H3; tauto).
       split; [|split; [|split]].
       + constructor; simpl; [exact Hm| |
           apply Hdis; intro He; unfold cache_wpend; now rewrite He | exact Hdb].
-        apply cinv_wpend; [exact Hc|]. split; [exact H1|intro; exact Hv].
+        now apply cinvg_wpend.
       + intros v Hx. inversion Hx. now rewrite Hv, Hk.
       + eauto.
       + eauto.
@@ -931,7 +1218,7 @@ Section Space.
         apply existsb_keqb in Enf.
         split; [now constructor|]. split; [|split; eauto].
         intros v Hx. inversion Hx; subst v.
-        destruct (ci_nf _ _ _ _ Hc k Enf) as [Hq|Hq]; [tauto|now symmetry|contradiction].
+        destruct (cinvg_nf _ _ _ _ k Hc Enf) as [Hq|Hq]; [now symmetry|contradiction].
       + destruct (dbr =? R) eqn:Edb.
         * apply Nat.eqb_eq in Edb. subst dbr.
           destruct (nf_mode && is_empty (Dbget (s_db K V s) k)) eqn:Eemp.
@@ -940,13 +1227,13 @@ Section Space.
              split; [|split; [|split; eauto]].
              ++ constructor; simpl; [exact Hm| |
                   apply Hdis; intro He; rewrite He; apply cache_put_dis | exact Hdb].
-                apply cinv_put; [exact Hc|]. simpl. split; simpl; [lia|intro; exact Eemp].
+                apply cinvg_put; [exact Hc|]. simpl. split; [lia|exact Eemp].
              ++ intros v Hx. inversion Hx; subst v. now symmetry.
           -- inversion H; subst res s'. clear H.
              split; [|split; [|split; eauto]].
              ++ constructor; simpl; [exact Hm| |
                   apply Hdis; intro He; rewrite He; apply cache_put_dis | exact Hdb].
-                apply cinv_put; [exact Hc|]. simpl. split; simpl; [lia|intro; apply Hdb].
+                apply cinvg_put; [exact Hc|]. simpl. split; [lia|apply Hdb].
              ++ intros v Hx. inversion Hx. apply Hdb.
         * apply Nat.eqb_neq in Edb. destruct (dbr <? R) eqn:Elt.
           -- apply Nat.ltb_lt in Elt. inversion H; subst res s'.
@@ -957,15 +1244,15 @@ Section Space.
              split; [intro; congruence|intro; now left].
   Qed.
 
-  Lemma sp_lookup_ok : forall stall en pcap hist R dbr mem s r k res s',
-    SpInv en hist R dbr mem s -> is_prefix hist R mem ->
+  Lemma sp_lookup_ok : forall fx stall en pcap hist R dbr mem s r k res s',
+    SpInv fx en hist R dbr mem s -> is_prefix hist R mem ->
     Lookup stall en pcap R dbr mem s r k = (res, s') ->
-    SpInv en hist R dbr mem s' /\
+    SpInv fx en hist R dbr mem s' /\
     (forall v, res = LOk v -> v = Sf hist r k) /\
     (R <= r <= R + length mem ->
        (dbr = R -> exists v, res = LOk v) /\ (R < dbr -> res = LRetry \/ exists v, res = LOk v)).
   Proof.
-    intros stall en pcap hist R dbr mem s r k res s' Hinv Hpre H. unfold sp_lookup in H.
+    intros fx stall en pcap hist R dbr mem s r k res s' Hinv Hpre H. unfold sp_lookup in H.
     destruct (r <? R) eqn:E1.
     { apply Nat.ltb_lt in E1. inversion H; subst. split; [exact Hinv|].
       split; [intros v Hx; discriminate|intro; lia]. }
@@ -976,13 +1263,13 @@ Section Space.
     apply Nat.ltb_ge in E2.
     assert (Hr : r = R + (r - R)) by lia.
     assert (HS := Sf_mem hist R mem (r - R) k Hpre E2). rewrite <- Hr in HS.
-    assert (Hmods := si_mods _ _ _ _ _ _ Hinv k).
+    assert (Hmods := si_mods _ _ _ _ _ _ _ Hinv k).
     assert (Hfall : forall res s', Fall stall en pcap R dbr s k = (res, s') ->
               Walk (firstn (r - R) mem) k = None ->
-              SpInv en hist R dbr mem s' /\ (forall v, res = LOk v -> v = Sf hist r k) /\
+              SpInv fx en hist R dbr mem s' /\ (forall v, res = LOk v -> v = Sf hist r k) /\
               (R <= r <= R + length mem ->
                 (dbr = R -> exists v, res = LOk v) /\ (R < dbr -> res = LRetry \/ exists v, res = LOk v))).
-    { intros res0 s0 Hf Hw. destruct (sp_fall_ok _ _ _ _ _ _ _ _ _ _ _ Hinv Hf) as [Ha [Hb [Hc Hd]]].
+    { intros res0 s0 Hf Hw. destruct (sp_fall_ok _ _ _ _ _ _ _ _ _ _ _ _ Hinv Hf) as [Ha [Hb [Hc Hd]]].
       rewrite Hw in HS. split; [exact Ha|]. split; [|now split].
       intros v Hv. rewrite HS. now apply Hb. }
     destruct (Aget k (s_mods K V s)) as [[v n]|] eqn:Em.
@@ -1002,14 +1289,14 @@ Section Space.
   (* getCreatorForRound *)
   Notation CrLookup := (cr_lookup K V D keqb interp vempty).
 
-  Lemma cr_lookup_ok : forall en hist R dbr mem s r k res,
-    SpInv en hist R dbr mem s -> is_prefix hist R mem ->
+  Lemma cr_lookup_ok : forall fx en hist R dbr mem s r k res,
+    SpInv fx en hist R dbr mem s -> is_prefix hist R mem ->
     CrLookup R dbr mem s r k = res ->
     (forall v, res = LOk v -> v = Sf hist r k) /\
     (R <= r <= R + length mem ->
        (dbr = R -> exists v, res = LOk v) /\ (R < dbr -> res = LRetry \/ exists v, res = LOk v)).
   Proof.
-    intros en hist R dbr mem s r k res Hinv Hpre H. unfold cr_lookup in H.
+    intros fx en hist R dbr mem s r k res Hinv Hpre H. unfold cr_lookup in H.
     destruct (r <? R) eqn:E1.
     { apply Nat.ltb_lt in E1. subst res. split; [intros v Hx; discriminate|intro; lia]. }
     apply Nat.ltb_ge in E1.
@@ -1018,8 +1305,8 @@ Section Space.
     apply Nat.ltb_ge in E2.
     assert (Hr : r = R + (r - R)) by lia.
     assert (HS := Sf_mem hist R mem (r - R) k Hpre E2). rewrite <- Hr in HS.
-    assert (Hmods := si_mods _ _ _ _ _ _ Hinv k).
-    assert (Hdb := si_db _ _ _ _ _ _ Hinv k).
+    assert (Hmods := si_mods _ _ _ _ _ _ _ Hinv k).
+    assert (Hdb := si_db _ _ _ _ _ _ _ Hinv k).
     set (dbq := if dbr =? R then LOk (Dbget (s_db K V s) k) else if dbr <? R then LErr 3 else LRetry) in H.
     assert (Hq : Walk (firstn (r - R) mem) k = None ->
               (forall v, dbq = LOk v -> v = Sf hist r k) /\
@@ -1058,56 +1345,62 @@ Section Space.
     - intros k Hk Hd. rewrite <- HS. now apply Hn.
   Qed.
 
-  Lemma spinv_ext : forall en hist hist' R dbr mem s,
+  Lemma cinvg_ext : forall fx dl R S S' c, (forall k, S k = S' k) -> CInvG fx dl R S c -> CInvG fx dl R S' c.
+  Proof. intros [|] dl R S S' c HS H; [now apply (cinvd_ext _ _ S)|now apply (cinvu_ext _ _ S)]. Qed.
+
+  Lemma spinv_ext : forall fx en hist hist' R dbr mem s,
     (forall k, Sf hist' R k = Sf hist R k) -> (forall k, Sf hist' dbr k = Sf hist dbr k) ->
-    SpInv en hist R dbr mem s -> SpInv en hist' R dbr mem s.
+    SpInv fx en hist R dbr mem s -> SpInv fx en hist' R dbr mem s.
   Proof.
-    intros en hist hist' R dbr mem s H1 H2 [Hm Hc Hd Hdb]. constructor; [exact Hm| |exact Hd|].
-    - apply (cinvd_ext _ _ (Sf hist R)); [intro k; now rewrite H1|exact Hc].
+    intros fx en hist hist' R dbr mem s H1 H2 [Hm Hc Hd Hdb]. constructor; [exact Hm| |exact Hd|].
+    - apply (cinvg_ext _ _ _ (Sf hist R)); [intro k; now rewrite H1|exact Hc].
     - intro k. now rewrite H2.
   Qed.
 
-  Lemma sp_newblock_inv : forall en buf hist R dbr mem s recs,
-    SpInv en hist R dbr mem s -> nodup_keys keqb recs = true ->
-    SpInv en hist R dbr (mem ++ [recs]) (sp_newblock K V D keqb interp en true R buf recs s).
+  Lemma sp_newblock_inv : forall fx en buf hist R dbr mem s recs,
+    SpInv fx en hist R dbr mem s -> nodup_keys keqb recs = true ->
+    SpInv fx en hist R dbr (mem ++ [recs]) (sp_newblock K V D keqb interp en fx R buf recs s).
   Proof.
-    intros en buf hist R dbr mem s recs [Hm Hc Hd Hdb] Hnd. unfold sp_newblock.
+    intros fx en buf hist R dbr mem s recs [Hm Hc Hd Hdb] Hnd. unfold sp_newblock.
     constructor; simpl; [now apply mods_ok_newblock| | |exact Hdb].
-    - destruct en; [now apply cinv_flush_prune|exact Hc].
+    - destruct en; [now apply cinvg_flush_prune|exact Hc].
     - intro He. subst en. simpl. now apply Hd.
   Qed.
 
-  Lemma sp_flush_inv : forall en hist R dbr mem s,
-    SpInv en hist R dbr mem s -> SpInv en hist R dbr mem (sp_flush K V keqb en true R s).
+  Lemma sp_flush_inv : forall fx en hist R dbr mem s,
+    SpInv fx en hist R dbr mem s -> SpInv fx en hist R dbr mem (sp_flush K V keqb en fx R s).
   Proof.
-    intros en hist R dbr mem s [Hm Hc Hd Hdb]. unfold sp_flush, sp_setc.
+    intros fx en hist R dbr mem s [Hm Hc Hd Hdb]. unfold sp_flush, sp_setc.
     constructor; simpl; [exact Hm| | |exact Hdb].
-    - destruct en; [now apply cinv_flush|exact Hc].
+    - destruct en; [now apply cinvg_flush|exact Hc].
     - intro He. subst en. simpl. now apply Hd.
   Qed.
 
-  Lemma sp_prune_inv : forall en n hist R dbr mem s,
-    SpInv en hist R dbr mem s -> SpInv en hist R dbr mem (sp_prune K V keqb en true R n s).
+  Lemma sp_prune_inv : forall fx en n hist R dbr mem s,
+    SpInv fx en hist R dbr mem s -> SpInv fx en hist R dbr mem (sp_prune K V keqb en fx R n s).
   Proof.
-    intros en n hist R dbr mem s [Hm Hc Hd Hdb]. unfold sp_prune, sp_setc.
+    intros fx en n hist R dbr mem s [Hm Hc Hd Hdb]. unfold sp_prune, sp_setc.
     constructor; simpl; [exact Hm| | |exact Hdb].
-    - destruct en; [now apply cinv_flush_prune|exact Hc].
+    - destruct en; [now apply cinvg_flush_prune|exact Hc].
     - intro He. subst en. simpl. now apply Hd.
   Qed.
 
-  Lemma sp_land_inv : forall en pcap n hist R dbr mem s,
-    SpInv en hist R dbr mem s -> SpInv en hist R dbr mem (sp_land K V en pcap n s).
+  (* with the original flush a held reader's write may only land while it cannot do harm *)
+  Lemma sp_land_inv : forall fx en pcap n hist R dbr mem s,
+    SpInv fx en hist R dbr mem s ->
+    (fx = false -> land_safe R (Sf hist R) (s_cache K V s) n) ->
+    SpInv fx en hist R dbr mem (sp_land K V en pcap n s).
   Proof.
-    intros en pcap n hist R dbr mem s [Hm Hc Hd Hdb]. unfold sp_land, sp_setc.
-    constructor; simpl; [exact Hm|now apply cinv_land| |exact Hdb].
+    intros fx en pcap n hist R dbr mem s [Hm Hc Hd Hdb] Hs. unfold sp_land, sp_setc.
+    constructor; simpl; [exact Hm|now apply cinvg_land| |exact Hdb].
     intro He. subst en. rewrite (Hd eq_refl). unfold cache_land. simpl. now destruct n.
   Qed.
 
-  Lemma sp_reset_inv : forall en hist R dbr mem s,
-    SpInv en hist R dbr mem s -> SpInv en hist dbr dbr [] (sp_reset K V s).
+  Lemma sp_reset_inv : forall fx en hist R dbr mem s,
+    SpInv fx en hist R dbr mem s -> SpInv fx en hist dbr dbr [] (sp_reset K V s).
   Proof.
-    intros en hist R dbr mem s [Hm Hc Hd Hdb]. unfold sp_reset, sp_init.
-    constructor; simpl; [apply mods_ok_nil|apply cinv_empty|intro; reflexivity|exact Hdb].
+    intros fx en hist R dbr mem s [Hm Hc Hd Hdb]. unfold sp_reset, sp_init.
+    constructor; simpl; [apply mods_ok_nil|apply cinvg_empty|intro; reflexivity|exact Hdb].
   Qed.
 
   Lemma stf_full : forall f ds k,
@@ -1116,13 +1409,13 @@ Section Space.
 
   Notation CommitDb := (sp_commit_db K V D keqb merge vempty is_empty skip strict).
 
-  Lemma sp_commit_inv : forall en hist R mem s off s',
-    SpInv en hist R R mem s -> is_prefix hist R mem -> off <= length mem ->
+  Lemma sp_commit_inv : forall fx en hist R mem s off s',
+    SpInv fx en hist R R mem s -> is_prefix hist R mem -> off <= length mem ->
     all_nodup (firstn off mem) -> wf_range (Sf hist R) (firstn off mem) ->
     CommitDb (firstn off mem) s = Some s' ->
-    SpInv en hist R (R + off) mem s'.
+    SpInv fx en hist R (R + off) mem s'.
   Proof.
-    intros en hist R mem s off s' [Hm Hc Hd Hdb] Hpre Ho Hnd Hwf H. unfold sp_commit_db in H.
+    intros fx en hist R mem s off s' [Hm Hc Hd Hdb] Hpre Ho Hnd Hwf H. unfold sp_commit_db in H.
     destruct (fold_left Commit1 (Compact (firstn off mem)) (Some (s_db K V s))) as [t|] eqn:E; [|discriminate].
     inversion H; subst s'. constructor; simpl; [exact Hm|exact Hc|exact Hd|].
     intro k. rewrite (commit_table_ok _ _ _ _ Hnd Hwf Hdb E k), stf_full.
@@ -1153,13 +1446,13 @@ Section Space.
 
   Notation Post := (sp_post K V D keqb merge vempty skip).
 
-  Lemma sp_post_inv : forall en hist R mem s off,
-    SpInv en hist R (R + off) mem s -> is_prefix hist R mem -> 1 <= off <= length mem ->
+  Lemma sp_post_inv : forall fx en hist R mem s off,
+    SpInv fx en hist R (R + off) mem s -> is_prefix hist R mem -> 1 <= off <= length mem ->
     all_nodup (firstn off mem) -> wf_range (Sf hist R) (firstn off mem) ->
     exists s', Post en (R + off) (firstn off mem) s = Some s' /\
-               SpInv en hist (R + off) (R + off) (skipn off mem) s'.
+               SpInv fx en hist (R + off) (R + off) (skipn off mem) s'.
   Proof.
-    intros en hist R mem s off [Hm Hc Hd Hdb] Hpre Ho Hnd Hwf. unfold sp_post.
+    intros fx en hist R mem s off [Hm Hc Hd Hdb] Hpre Ho Hnd Hwf. unfold sp_post.
     set (ds := firstn off mem) in *. set (rest := skipn off mem).
     assert (Hsplit : mem = ds ++ rest) by (symmetry; apply firstn_skipn).
     rewrite Hsplit in Hm. destruct (mods_ok_post _ _ _ Hm Hnd) as [m' [Hf Hm']]. rewrite Hf.
@@ -1170,14 +1463,13 @@ Section Space.
                                                   | None => Sf hist R k end).
       { intro k. apply (Sf_mem hist R mem off k Hpre). lia. }
       destruct en.
-      + apply post_cache_fold; [apply compact_nodup| |].
+      + apply (cinvg_post fx _ R (R + off) (Sf hist R)); [apply compact_nodup|lia| | |exact Hc].
         * intros k v n f Hin Hs. apply (in_nodup_aget _ _ _ _ (compact_nodup ds)) in Hin.
           rewrite (compact_get _ _ Hnd) in Hin. destruct (firstrec ds k) as [f'|] eqn:E; [|discriminate].
           inversion Hin as [[Hv Hn' Hf']]. rewrite HS. destruct (Walk ds k) as [dl|] eqn:E2.
           -- apply (mergeall_interp _ _ _ _ Hwf E2).
           -- apply firstrec_none_walk in E2. congruence.
-        * apply (cinvd_enter _ R (R + off) (Sf hist R)); [lia| |exact Hc].
-          intros k Hk. rewrite HS. destruct (firstrec ds k) as [f|] eqn:E.
+        * intros k Hk. rewrite HS. destruct (firstrec ds k) as [f|] eqn:E.
           -- destruct (Walk ds k) as [dl|] eqn:E2; [|reflexivity].
              assert (Hg := compact_get ds k Hnd). rewrite E in Hg.
              destruct (skip f (mergeall ds k)) eqn:Es.
@@ -1187,9 +1479,10 @@ Section Space.
                 exists (k, (mergeall ds k, cnt ds k, f)). split; [reflexivity|].
                 apply filter_In. split; [now apply aget_in|]. simpl. now rewrite Es.
           -- apply firstrec_none_walk in E. now rewrite E.
-      + rewrite post_cache_disabled. rewrite (Hd eq_refl). apply cinv_empty.
+      + rewrite post_cache_disabled. rewrite (Hd eq_refl). apply cinvg_empty.
     - intro He. subst en. rewrite post_cache_disabled. now apply Hd.
   Qed.
+
   (* ------------------------------------------------------------------ well-formed history -> ranges *)
   Definition wf_all (hist : rounds) : Prop :=
     forall j k d, j < length hist -> Rfind k (nth j hist []) = Some d -> wfrec (Sf hist j k) d.
